@@ -7,11 +7,18 @@ Emits (fail closed on anything it does not recognise):
   gen_methods  : for every concrete operator class, which definition of __matmul__, transpose,
                  inverse, reduce, out_structure, as_matrix it resolves to (MRO + decorators)
   gen_tags     : lineax tag predicates per class
+  gen_generic_check : the BODY of AbstractBinaryRule.check (the generic class / identity guards every binary rule
+                 goes through) translated statement by statement into a Gallina boolean function; Props/Tables.v
+                 proves it equal to the model's guard_ok for all guards and operands
+  gen_check_owners  : which class defines the `check` each registered rule resolves to
+  gen_inverse_check_src : normalised source of the only overriding check (InverseBinaryRule.check)
 """
 from __future__ import annotations
 
+import ast
 import importlib
 import inspect
+import textwrap
 import pkgutil
 import sys
 from pathlib import Path
@@ -102,6 +109,8 @@ def clist(items) -> str:
 def cls_tuple(x, names) -> str:
     if x is None:
         return 'None'
+    if isinstance(x, tuple) and len(x) < 2:
+        raise Tie('rule guard is a tuple of fewer than two classes (indistinguishable from the bare class in the table)')
     xs = x if isinstance(x, tuple) else (x,)
     out = []
     for c in xs:
@@ -109,6 +118,190 @@ def cls_tuple(x, names) -> str:
             raise Tie(f'rule guard names class {c.__name__} unknown to the model')
         out.append(names[c.__name__])
     return f'(Some {clist(out)})'
+
+
+# ---------------------------------------------------------------------------------------------
+# AbstractBinaryRule.check -> Gallina
+#
+# Accepted subset (anything else raises Tie):
+#   statements  if/elif/else, `raise NoReduction`, bare `return`, `pass`, a leading docstring
+#   conditions  and / or / not,
+#               self.<attr> is [not] None, self.<attr> is [not] <operator class>,
+#               isinstance(left|right, self.<attr>)      (only where self.<attr> is known not to be None),
+#               left.operator is [not] right, right.operator is [not] left
+#                                                        (only and-guarded by self.<side>_operator_class is <wrapper class>)
+# with <attr> one of operator_class / left_operator_class / right_operator_class.
+# The result is a bool: true = check returns (the rule may be applied), false = NoReduction.
+GUARD_ATTRS = {'operator_class': 'g_any', 'left_operator_class': 'g_left', 'right_operator_class': 'g_right'}
+
+
+class _CheckTranslator:
+    def __init__(self, fn, module, names):
+        self.module = module
+        self.names = names  # python class name -> model cls constructor
+        args = fn.args
+        if ([a.arg for a in args.args] != ['self', 'left', 'right'] or args.vararg or args.kwarg or args.kwonlyargs
+                or args.posonlyargs or args.defaults):
+            raise Tie(f'signature of {fn.name} is not (self, left, right)')
+        if fn.decorator_list:
+            raise Tie(f'{fn.name} is decorated')
+        body = list(fn.body)
+        if body and isinstance(body[0], ast.Expr) and isinstance(body[0].value, ast.Constant) and isinstance(body[0].value.value, str):
+            body = body[1:]
+        self.body = body
+
+    def refuse(self, node, why):
+        raise Tie(f'AbstractBinaryRule.check: cannot translate `{ast.unparse(node)}` ({why})')
+
+    # -- statements ---------------------------------------------------------------------------
+    def stmts(self, body, rest, known):
+        if not body:
+            return rest
+        s, tail = body[0], body[1:]
+        if isinstance(s, ast.If):
+            after = self.stmts(tail, rest, known)
+            test = self.expr(s.test, known, frozenset())
+            then = self.stmts(s.body, after, known | self.not_none_facts(s.test))
+            other = self.stmts(s.orelse, after, known)
+            return f'(if {test} then {then} else {other})'
+        if isinstance(s, ast.Raise):
+            exc = s.exc.func if isinstance(s.exc, ast.Call) and not s.exc.args and not s.exc.keywords else s.exc
+            if s.cause is not None or not isinstance(exc, ast.Name) or getattr(self.module, exc.id, None) is not self.module.NoReduction:
+                self.refuse(s, 'only `raise NoReduction` is understood')
+            if tail:
+                self.refuse(tail[0], 'statement after a raise')
+            return 'false'
+        if isinstance(s, ast.Return) and (s.value is None or (isinstance(s.value, ast.Constant) and s.value.value is None)):
+            if tail:
+                self.refuse(tail[0], 'statement after a return')
+            return 'true'
+        if isinstance(s, ast.Pass):
+            return self.stmts(tail, rest, known)
+        self.refuse(s, 'statement kind')
+
+    def not_none_facts(self, test):
+        """Attributes that are certainly not None when `test` is true."""
+        if isinstance(test, ast.BoolOp) and isinstance(test.op, ast.And):
+            out = frozenset()
+            for v in test.values:
+                out |= self.not_none_facts(v)
+            return out
+        if isinstance(test, ast.Compare) and len(test.ops) == 1:
+            a = self.self_attr(test.left)
+            c = test.comparators[0]
+            if a and isinstance(test.ops[0], ast.IsNot) and isinstance(c, ast.Constant) and c.value is None:
+                return frozenset([a])
+            if a and isinstance(test.ops[0], ast.Is) and isinstance(c, ast.Name):
+                return frozenset([a])  # is <some class>
+        return frozenset()
+
+    def wrapper_facts(self, test):
+        """Sides (left/right) whose class attribute is known to be exactly a lazy wrapper class when `test` is true."""
+        from furax._base.core import _AbstractLazyDualOperator
+
+        if isinstance(test, ast.Compare) and len(test.ops) == 1 and isinstance(test.ops[0], ast.Is):
+            a = self.self_attr(test.left)
+            c = test.comparators[0]
+            if a in ('left_operator_class', 'right_operator_class') and isinstance(c, ast.Name):
+                k = getattr(self.module, c.id, None)
+                if isinstance(k, type) and issubclass(k, _AbstractLazyDualOperator):
+                    return frozenset([a.split('_')[0]])
+        return frozenset()
+
+    # -- expressions --------------------------------------------------------------------------
+    @staticmethod
+    def self_attr(node):
+        if isinstance(node, ast.Attribute) and isinstance(node.value, ast.Name) and node.value.id == 'self' and node.attr in GUARD_ATTRS:
+            return node.attr
+        return None
+
+    def expr(self, e, known, wrappers):
+        if isinstance(e, ast.BoolOp):
+            f = 'andb' if isinstance(e.op, ast.And) else 'orb'
+            terms = []
+            for v in e.values:
+                terms.append(self.expr(v, known, wrappers))
+                if isinstance(e.op, ast.And):  # facts established by the operands to the left (short circuit)
+                    known = known | self.not_none_facts(v)
+                    wrappers = wrappers | self.wrapper_facts(v)
+            out = terms[-1]
+            for t in reversed(terms[:-1]):
+                out = f'({f} {t} {out})'
+            return out
+        if isinstance(e, ast.UnaryOp) and isinstance(e.op, ast.Not):
+            return f'(negb {self.expr(e.operand, known, wrappers)})'
+        if isinstance(e, ast.Compare) and len(e.ops) == 1 and isinstance(e.ops[0], (ast.Is, ast.IsNot)):
+            neg = isinstance(e.ops[0], ast.IsNot)
+            lhs, rhs = e.left, e.comparators[0]
+            a = self.self_attr(lhs)
+            t = None
+            if a and isinstance(rhs, ast.Constant) and rhs.value is None:
+                t = f'(negb (attr_set ({GUARD_ATTRS[a]} g)))'
+            elif a and isinstance(rhs, ast.Name):
+                k = getattr(self.module, rhs.id, None)
+                if not isinstance(k, type) or k.__name__ not in self.names:
+                    self.refuse(e, 'comparison with something that is not a modelled operator class')
+                t = f'(attr_is ({GUARD_ATTRS[a]} g) {self.names[k.__name__]})'
+            elif (isinstance(lhs, ast.Attribute) and lhs.attr == 'operator' and isinstance(lhs.value, ast.Name)
+                  and isinstance(rhs, ast.Name) and {lhs.value.id, rhs.id} == {'left', 'right'}):
+                if lhs.value.id not in wrappers:
+                    self.refuse(e, f'`.operator` of an operand that is not known to be a lazy wrapper here')
+                t = f'(operator_is keqb {lhs.value.id} {rhs.id})'
+            if t is None:
+                self.refuse(e, 'comparison')
+            return f'(negb {t})' if neg else t
+        if (isinstance(e, ast.Call) and isinstance(e.func, ast.Name) and e.func.id == 'isinstance' and len(e.args) == 2
+                and not e.keywords and isinstance(e.args[0], ast.Name) and e.args[0].id in ('left', 'right')):
+            if 'isinstance' in vars(self.module):
+                self.refuse(e, 'isinstance is shadowed in the module')
+            a = self.self_attr(e.args[1])
+            if a is None:
+                self.refuse(e, 'second argument of isinstance')
+            if a not in known:
+                self.refuse(e, f'self.{a} may be None here')
+            return f'(py_isinstance {e.args[0].id} ({GUARD_ATTRS[a]} g))'
+        self.refuse(e, 'expression kind')
+
+
+def _function_ast(f):
+    src = textwrap.dedent(inspect.getsource(f))
+    mod = ast.parse(src)
+    if len(mod.body) != 1 or not isinstance(mod.body[0], ast.FunctionDef):
+        raise Tie(f'source of {f.__qualname__} is not a single function definition')
+    return mod.body[0]
+
+
+def translate_generic_check(names) -> str:
+    from furax._base import rules as R
+
+    f = R.AbstractBinaryRule.__dict__.get('check')
+    if not inspect.isfunction(f):
+        raise Tie('AbstractBinaryRule.check is not a plain function')
+    tr = _CheckTranslator(_function_ast(f), R, names)
+    return tr.stmts(tr.body, 'true', frozenset())
+
+
+def normalised_source(f) -> str:
+    """Source of a function without comments, docstring and layout (ast.dump of its statements)."""
+    fn = _function_ast(f)
+    body = list(fn.body)
+    if body and isinstance(body[0], ast.Expr) and isinstance(body[0].value, ast.Constant) and isinstance(body[0].value.value, str):
+        body = body[1:]
+    sig = ', '.join(a.arg for a in fn.args.args)
+    return f'def {fn.name}({sig}): ' + '; '.join(ast.dump(s, annotate_fields=False) for s in body)
+
+
+def check_owners(registry) -> list:
+    """(rule, class defining the check() it resolves to); instance-level overrides are refused."""
+    out = []
+    for r in registry:
+        if 'check' in vars(r):
+            raise Tie(f'{type(r).__name__} instance carries its own check attribute')
+        own = next((k for k in type(r).__mro__ if 'check' in k.__dict__), None)
+        if own is None or not inspect.isfunction(own.__dict__['check']):
+            raise Tie(f'check of {type(r).__name__} is not a plain method')
+        out.append((type(r).__name__, own.__name__))
+    return out
 
 
 def generate(gen_dir: Path) -> dict:
@@ -138,6 +331,14 @@ def generate(gen_dir: Path) -> dict:
         g = f'mkGuard {cls_tuple(r.operator_class, names)} {cls_tuple(r.left_operator_class, names)} {cls_tuple(r.right_operator_class, names)}'
         rules.append(f'({RULES[rn]}, {g})')
         order.append(RULES[rn])
+
+    generic_check = translate_generic_check(names)
+    owners = check_owners(BINARY_RULE_REGISTRY)
+    overriding = sorted({o for _, o in owners if o != 'AbstractBinaryRule'})
+    if overriding != ['InverseBinaryRule']:
+        raise Tie(f'rules overriding check(): {overriding}; the model knows InverseBinaryRule only')
+    from furax._base.rules import InverseBinaryRule
+    inverse_src = normalised_source(InverseBinaryRule.__dict__['check'])
 
     present = [k for k, v in CLS.items() if v in pyclasses]
     sub = []
@@ -175,7 +376,7 @@ def generate(gen_dir: Path) -> dict:
 
     text = f'''(* GENERATED by /verif/tools/translate/tables.py from the imported furax package - do not edit *)
 From Coq Require Import List String.
-From Furax Require Import Model.Op Model.Algebra.
+From Furax Require Import Model.Op Model.Algebra Lemmas.TablesL.
 Import ListNotations.
 Definition gen_rules : list (rule_id * guard) := {clist(rules)}.
 Definition gen_order : list rule_id := {clist(order)}.
@@ -185,10 +386,15 @@ Definition gen_method_names : list string := {clist([cstr(m) for m in METHODS])}
 Definition gen_methods : list (cls * list string) := {clist(methods)}.
 Definition gen_tag_names : list string := {clist([cstr(t) for t in tagfs])}.
 Definition gen_tags : list (cls * list bool) := {clist(tags)}.
+(* AbstractBinaryRule.check, statement by statement: true = returns, false = raises NoReduction *)
+Definition gen_generic_check (K : Type) (keqb : K -> K -> bool) (g : guard) (left right : op K) : bool :=
+  {generic_check}.
+Definition gen_check_owners : list (rule_id * string) := {clist([f'({RULES[r]}, {cstr(o)})' for r, o in owners])}.
+Definition gen_inverse_check_src : string := {cstr(inverse_src)}.
 '''
     gen_dir.mkdir(parents=True, exist_ok=True)
     (gen_dir / 'Tables.v').write_text(text)
-    return {'rules': order, 'classes': len(present), 'optional_missing': [n for n in missing if n in optional]}
+    return {'rules': order, 'generic_check': generic_check, 'classes': len(present), 'optional_missing': [n for n in missing if n in optional]}
 
 
 if __name__ == '__main__':
